@@ -752,7 +752,30 @@ def c05_known(res, exe):
 def c05_corr(res, exe, driver, tier, seed, tmp):
     c05_known(res, exe)
     cases = p_tty.c05_cases(tier, seed)
-    run_tty_cases(res, exe, driver, cases, tmp, "undo", compare_output=False, rng=random.Random(seed), typeahead=0.3)
+    out0 = run_tty_cases(res, exe, driver, cases, tmp, "undo", compare_output=False, rng=random.Random(seed), typeahead=0.3)
+    # vi scripts that end with k single-key undos in command mode and Enter: every one of those undos lands on a text the
+    # line had at an earlier key (the declarative clause (a) below, for Vi mode, where keys and observations do not pair up
+    # one to one elsewhere in a script)
+    ntail = 0
+    for c, impl, model, raw in out0:
+        k = c.meta.get("undo_tail")
+        if not k or not impl:
+            continue
+        o, obs, w = parse_read(impl[0])
+        if not o.startswith("line:") or len(obs) < k + 2:
+            continue
+        texts = [ob[0] for ob in obs]            # the text before each key that reached the keymap; the last one is before Enter
+        m = len(texts)
+        ntail += 1
+        for j in range(1, k + 1):
+            i = m - 1 - k + j                    # the observation made right after the j-th undo of the tail
+            earlier = texts[:i]
+            if texts[i] not in earlier and texts[i] != []:
+                res.oracle_failures.append({"stream": "undo", "case": c.model_line(p_tty.chunks_of(c.keys)), "keys": c.keys,
+                                            "why": "vi: undo %d of the final %d shows '%s', a text the line never had at an earlier key (the last texts seen: %s)" % (
+                                                j, k, enc(texts[i]), " | ".join(enc(x) for x in earlier[-6:]))})
+                break
+    res.extra["vi_undo_tails_judged"] = ntail
     ocases = c05_oracle_cases(tier, seed)
     out, traces = run_spec_stream(res, exe, driver, ocases, tmp, "undo-spec", seed, typeahead=0.0)
     stats = eval_c05(res, traces, "undo-spec")
